@@ -164,6 +164,8 @@ func (stream *receiverStream) generateReport(now time.Time) *rtcp.ReceiverReport
 	}()
 	stream.lostBeyondHistory = 0
 	stream.totalLost += totalLostSinceReport
+	// the fraction is that of the whole interval, also when the interval loss does not fit the 24 bits below
+	fractionLost := uint8(float64(uint64(totalLostSinceReport)*256) / float64(totalSinceReport))
 
 	// allow up to 24 bits
 	if totalLostSinceReport > 0xFFFFFF {
@@ -180,7 +182,7 @@ func (stream *receiverStream) generateReport(now time.Time) *rtcp.ReceiverReport
 				SSRC:               stream.ssrc,
 				LastSequenceNumber: stream.extendedSeqnum(),
 				LastSenderReport:   stream.lastSenderReport,
-				FractionLost:       uint8(float64(totalLostSinceReport*256) / float64(totalSinceReport)),
+				FractionLost:       fractionLost,
 				TotalLost:          stream.totalLost,
 				Delay: func() uint32 {
 					if stream.lastSenderReportTime.IsZero() {
